@@ -28,8 +28,35 @@ import PyhamModel.Lemmas.FilterLemmas
 import PyhamModel.Lemmas.NamingLemmas
 import PyhamModel.Lemmas.Spelling
 import PyhamModel.Lemmas.Annotations
+import PyhamModel.Lemmas.Capstone
+import PyhamModel.Lemmas.CapstoneWF
 namespace Pyham.Props
 open Pyham
+
+/-! ## Every consistent dataset loads into a well-formed analysis
+
+  `Dataset.Consistent` is the properties' "HOG orthoXML consistent with the species tree": species
+  names are leaf names, gene ids unique, every gene referenced at most once and declared in the species
+  of its leaf, every family a written group encoding a well-formed recoverable history, node names
+  unambiguous, family ids distinct.  The theorems below about comparisons and profiles are stated for
+  every well-formed hierarchy (`H.WFc`, `H.sizesExact`); this theorem makes them apply to every loaded
+  consistent input. -/
+
+theorem consistent_dataset_loads_wellformed (D : Dataset) (hc : D.Consistent) :
+    ∃ H, load D.T D.nm D.file = .ok H ∧
+      H.tops.length = D.fams.length ∧
+      (∀ i (h1 : i < H.tops.length) (h2 : i < D.fams.length),
+          (H.tops[i]).1 = topHid (D.fams[i]).2 ∧ Realises (D.fams[i]).1 (D.fams[i]).2 (H.tops[i]).2) ∧
+      H.WFc ∧ H.sizesExact = true ∧
+      (H.genes.map (·.id)) = D.species.flatMap (fun s => s.genes.map (·.id)) :=
+  loaded_consistent D hc
+
+/-- ... and the full decidable predicate `Ham.wf` (= the predicate WF of property C02: every top an
+    unflagged HOG, aligned, disciplined, events and flags consistent, genes at leaves, all identities
+    distinct) together with exact genome gene lists -/
+theorem consistent_dataset_loads_wf (D : Dataset) (hc : D.Consistent) :
+    ∃ H, load D.T D.nm D.file = .ok H ∧ H.wf = true ∧ H.regExact = true ∧ H.sizesExact = true :=
+  loaded_consistent_wf D hc
 
 /-! ## C01 — every referenced gene is loaded exactly once, in its family -/
 
@@ -124,6 +151,16 @@ theorem C05_sizes (H : Ham) (hw : H.WFc) (a d : Taxon) :
         (hogsMap H a d).dupl.length :=
   ⟨C05_descendant_size H hw a d, C05_ancestor_size H hw a d⟩
 
+/-- C05 for every loaded consistent input -/
+theorem C05_on_loaded_consistent_input (D : Dataset) (hc : D.Consistent) :
+    ∃ H, load D.T D.nm D.file = .ok H ∧ ∀ a d,
+      ((hogsMap H a d).gain ++ (hogsMap H a d).retained.map (·.2) ++ (hogsMap H a d).dupl.flatMap (·.2)).Perm
+        ((H.nodesAt d).map Loc.node) ∧
+      (((hogsMap H a d).loss ++ (hogsMap H a d).retained.map (·.1) ++ (hogsMap H a d).dupl.map (·.1)).map Node.key).Perm
+        ((H.nodesAt a).map fun l => l.node.key) := by
+  obtain ⟨H, hl, _, _, hw, _, _⟩ := loaded_consistent D hc
+  exact ⟨H, hl, fun a d => ⟨Pyham.C05_descendant_partition H hw a d, Pyham.C05_ancestor_partition H hw a d⟩⟩
+
 /-! ## C06 — retained / duplicated / lost / gained mean what the documentation says -/
 
 theorem C06_gained_iff (H : Ham) (a d : Taxon) (n : Node) :
@@ -187,6 +224,19 @@ theorem C09_balance (H : Ham) (hw : H.WFc) (hs : H.sizesExact = true) (i : Nat) 
       (profileFullAt H u).nbr = H.genomeSize u :=
   Pyham.C09_balance H hw hs i u ht hu
 
+/-- C09 for every loaded consistent input -/
+theorem C09_on_loaded_consistent_input (D : Dataset) (hc : D.Consistent) :
+    ∃ H, load D.T D.nm D.file = .ok H ∧ ∀ i u, (i :: u) ∈ H.tree.allTaxa → u ∈ H.tree.allTaxa →
+      ∃ nd lost gain ret dpl,
+        profileFullAt H (i :: u) =
+          { tx := i :: u, nbr := H.genomeSize (i :: u), dupl := some nd, lost := some lost, gain := some gain,
+            retained := some ret, duplication := some dpl, nbrEvents := some (dpl + lost + gain) } ∧
+        H.genomeSize (i :: u) = ret + nd + gain ∧
+        H.genomeSize (i :: u) + lost = H.genomeSize u + gain + dpl ∧
+        (profileFullAt H u).nbr = H.genomeSize u := by
+  obtain ⟨H, hl, _, _, hw, hs, _⟩ := loaded_consistent D hc
+  exact ⟨H, hl, fun i u ht hu => Pyham.C09_balance H hw hs i u ht hu⟩
+
 theorem C09_root_and_total (H : Ham) :
     profileFullAt H [] = { tx := [], nbr := H.genomeSize [] } ∧ (profileFull H).map (·.tx) = H.tree.allTaxa :=
   ⟨C09_root H, C09_total H⟩
@@ -219,6 +269,20 @@ theorem C10_additivity (H : Ham) (hw : H.wf = true) (i : Nat) (u : Taxon) (ht : 
     (hogsMap H u (i :: u)).loss.length = famSum H (fun top => on (profileHogAt top (i :: u)).lost) ∧
     (hogsMap H u (i :: u)).ndup = famSum H (fun top => on (profileHogAt top (i :: u)).duplication) :=
   Pyham.C10_additivity_partial H hw i u ht
+
+/-- C10 for every loaded consistent input -/
+theorem C10_on_loaded_consistent_input (D : Dataset) (hc : D.Consistent) :
+    ∃ H, load D.T D.nm D.file = .ok H ∧ ∀ i u, (i :: u) ∈ H.tree.allTaxa →
+      (profileFullAt H (i :: u)).nbr =
+          famSum H (fun top => (profileHogAt top (i :: u)).nbr) + (singletonsAt H (i :: u)).length ∧
+      on (profileFullAt H (i :: u)).gain =
+          (H.tops.filter fun p => p.2.tx == i :: u).length + (singletonsAt H (i :: u)).length ∧
+      on (profileFullAt H (i :: u)).dupl = famSum H (fun top => on (profileHogAt top (i :: u)).dupl) ∧
+      on (profileFullAt H (i :: u)).retained = famSum H (fun top => on (profileHogAt top (i :: u)).retained) ∧
+      on (profileFullAt H (i :: u)).lost = famSum H (fun top => on (profileHogAt top (i :: u)).lost) ∧
+      on (profileFullAt H (i :: u)).duplication = famSum H (fun top => on (profileHogAt top (i :: u)).duplication) := by
+  obtain ⟨H, hl, hw, _, hs⟩ := loaded_consistent_wf D hc
+  exact ⟨H, hl, fun i u ht => Pyham.C10_profiles_add_up H hw hs i u ht⟩
 
 /-! ## C11 — a filtered load is the projection of the full load onto the selected families -/
 
